@@ -279,7 +279,7 @@ pub fn run(cfg: RunCfg) {
         "the address derivation is recomputed in the harness with tiny-keccak SHA3-256 over the decoded content / owner key".into(),
     ];
     vh_core::section!(
-        rep, "address", (1_200, 80_000), 16,
+        rep, "address", (6_000, 80_000), 16,
         "non-trivial: key mismatched (or mixed-owner vector); distinct by (kind, path, mismatch class, shape, prior, other held)",
         case_strategy, check
     );
